@@ -62,14 +62,14 @@ def run_case(args):
 def nontrivial(c):
     ks = c["kinds"]
     beyond = len(c["peekdirs"]) < len(c["dirs"])
-    after_cb = any(ks[i] in ("D1", "D2") and i > 0 and ks[i - 1] in ("C", "B") for i in range(len(ks)))
+    after_cb = any(ks[i] in ("D1", "D2", "D3") and i > 0 and ks[i - 1] in ("C", "B") for i in range(len(ks)))
     return beyond or after_cb or "FASTA" in ks or "H" in ks
 
 
 def run(ctx):
     thorough = ctx.tier == "thorough"
-    mi = 6 if thorough else 5
-    ctx.rule = ("D1: every sequence of <= %d lines over {feature, ##d1, ##gff-v 3, #comment, blank, ##FASTA, >header, sequence text} x checklines 0..%d (MC_Source: "
+    mi = 5 if thorough else 4
+    ctx.rule = ("D1: every sequence of <= %d lines over {feature, ##d1, ##gff-v 3, ###note, #comment, blank, ##FASTA, >header, sequence text} x checklines 0..%d (MC_Source: "
                 "InvNoLoss, InvDirectives, InvNothingAfterFasta, InvF9), written to a file and read as path and as from_string text: DataIterator.directives after "
                 "iteration, iterated features, create_db(...).directives, FeatureDB(path).directives, stored features; D2: files with 0-30 features before a directive. "
                 "Non-trivial: a directive beyond the inspected window, a directive after a comment/blank, or a FASTA section; distinct by (lines, checklines).") % (mi, mi + 1)
@@ -95,11 +95,11 @@ def run(ctx):
         n = ctx.rng.randint(0, 30)
         kinds = ["F"] * n
         for _ in range(ctx.rng.randint(1, 4)):
-            kinds.insert(ctx.rng.randint(0, len(kinds)), ctx.rng.choice(["D1", "D2", "C", "B"]))
+            kinds.insert(ctx.rng.randint(0, len(kinds)), ctx.rng.choice(["D1", "D2", "D3", "C", "B"]))
         if ctx.rng.random() < 0.3:
             kinds += ["FASTA", "H", "J", "D1"]
         cut = min([i for i, k in enumerate(kinds) if k in ("FASTA", "H")] + [len(kinds)])
-        dirs = [enc("d1") if k == "D1" else enc("gff-v 3") for k in kinds[:cut] if k in ("D1", "D2")]
+        dirs = [enc({"D1": "d1", "D2": "gff-v 3", "D3": "#note"}[k]) for k in kinds[:cut] if k in ("D1", "D2", "D3")]
         feats = [i + 1 for i, k in enumerate(kinds[:cut]) if k == "F"]
         extra.append({"kinds": kinds, "cl": ctx.rng.choice([0, 1, 10, 11, 50]), "dirs": dirs, "feats": feats, "peekdirs": []})
     res = core.pmap(run_case, [(c, ctx.scratch, 100000 + k) for k, c in enumerate(extra)])
@@ -118,6 +118,6 @@ def replay(ctx, rec):
         return True
     kinds = c["kinds"]
     cut = min([i for i, k in enumerate(kinds) if k in ("FASTA", "H")] + [len(kinds)])
-    case = {"kinds": kinds, "cl": c["cl"], "dirs": [enc("d1") if k == "D1" else enc("gff-v 3") for k in kinds[:cut] if k in ("D1", "D2")],
+    case = {"kinds": kinds, "cl": c["cl"], "dirs": [enc({"D1": "d1", "D2": "gff-v 3", "D3": "#note"}[k]) for k in kinds[:cut] if k in ("D1", "D2", "D3")],
             "feats": [i + 1 for i, k in enumerate(kinds[:cut]) if k == "F"]}
     return bool(run_case((case, ctx.scratch, 0)))
